@@ -27,10 +27,18 @@ MANIFEST = dict(
          "value (logZ, rectangle logZ, log-volumes, live-point volumes, log posterior weights, error kinds), with the "
          "logarithms of the exact rationals computed by the same Lean definitions at K=Rat, and with an independent "
          "60-digit mpmath evaluation (oracle: three-way agreement, finiteness, volumes start at 0 and strictly decrease, "
-         "shift invariance measured directly on the real functions).",
+         "shift invariance measured directly on the real functions, reads of a finished state independent of their order). "
+         "INFORMATION AND UNCERTAINTY (Model/Information.lean, the recursion of increment with the logarithm as a parameter): "
+         "for every logarithm function, ordered field and length >= 2 the accumulated value is the textbook information "
+         "H = sum p_i lg L_i - lg Z (info_eq_textbook); over R, H >= -log(1 - X_N) >= 0 by Gibbs' inequality, hence "
+         "log_evidence_error = sqrt(info / nlive) is never NaN (code_info_nonneg); the recursion that drops the first dead "
+         "point (the code before the repair e5a33cd) differs by p_1 log(1 - t_1) and can be negative "
+         "(info_without_first_point_can_be_negative); tie: state.info (length and every value) and log_evidence_error "
+         "against the Rat execution with 60-digit logarithms of the model's own exact evidences.",
     note="Theorems are about exact arithmetic; that float64 rounding stays below 1e-9*max(1,|value|) is observed on the "
          "generated inputs, not proved. exp(-1/n) enters the Rat model as a 128-bit dyadic (the theorems take any shrinkage "
-         "in (0,1)). The information H and the plotting gradients of the state are not modelled.",
+         "in (0,1)). The logarithm enters the information model as a table of 60-digit mpmath values (the theorems hold for every "
+         "function lg, the sign theorems for the real logarithm). The plotting gradients of the state are not modelled.",
     technique="Lean 4 proof (induction over lists, ordered-field algebra) + differential correspondence against the exact "
               "Rat execution of the same definitions + mpmath oracle",
     ref="5/C02")
